@@ -579,7 +579,9 @@ class Union(Structure, metaclass=UnionMetaType):
             raise NotImplementedError("Modifying a dynamic union is not yet supported")
 
         super().__setattr__(attr, value)
-        self._rebuild(attr)
+        if attr in self.__class__.lookup:
+            self._rebuild(attr)
+        # Otherwise it's a field of an anonymous structure, which was set (and rebuilt) through the proxy of that structure
 
     def _rebuild(self, attr: str) -> None:
         if (cur_buf := getattr(self, "_buf", None)) is None:
@@ -608,13 +610,19 @@ class Union(Structure, metaclass=UnionMetaType):
         object.__setattr__(self, "_sizes", sizes)
 
     def _proxify(self) -> None:
-        def _proxy_structure(value: Structure) -> None:
+        def _proxy_structure(value: Structure, attr: str | None = None) -> None:
             for field in value.__class__.__fields__:
                 if issubclass(field.type, Structure):
                     nested_value = getattr(value, field._name)
-                    proxy = UnionProxy(self, field._name, nested_value)
+                    if isinstance(nested_value, UnionProxy):
+                        # Already proxied, e.g. by a nested union
+                        nested_value = nested_value.__target__
+
+                    # A change anywhere below a member of this union must rebuild that member
+                    member = attr or field._name
+                    proxy = UnionProxy(self, member, nested_value)
                     object.__setattr__(value, field._name, proxy)
-                    _proxy_structure(nested_value)
+                    _proxy_structure(nested_value, member)
 
         _proxy_structure(self)
 
